@@ -35,7 +35,7 @@ def model_steps(cands, schedule):
     done = set()
     main = False
     for s in schedule:
-        if s == "main":
+        if s in ("main", "premain"):
             steps.append("m")
             main = True
         else:
@@ -66,12 +66,17 @@ def run(ctx):
     rng = ctx.rng
     specs = []
     # ---- 1. schedule replay: every order of (claims of 2-3 reachable candidates, caller's receive) in which the receive follows a claim
-    for n in (2, 3):
+    for n in ((2, 3, 4) if thorough else (2, 3)):
         cs = REACH[:n]
         for perm in itertools.permutations(cs + ["main"]):
             if perm[0] == "main":
                 continue
             specs.append({"cands": list(cs), "schedule": list(perm), "mode": "observe"})
+    # the caller reaches its select only after every dial goroutine has finished (both select cases ready at once)
+    for n in (1, 2, 3):
+        for perm in itertools.permutations(REACH[:n]):
+            for _ in range(4 if not thorough else 10):
+                specs.append({"cands": list(REACH[:n]), "schedule": list(perm) + ["premain"], "mode": "observe"})
     for extra in (["X"], ["A'"], ["T"], ["X", "A'", "T"]):
         for sched in (["A", "main", "B"], ["B", "main", "A"], ["A", "B", "main"]):
             specs.append({"cands": ["A", "B"] + extra, "schedule": sched, "mode": "observe"})
@@ -82,7 +87,7 @@ def run(ctx):
         specs.append({"cands": ["R", "B", "C"], "schedule": ["R", "main", "C", "B"], "relay_delay_ms": d, "mode": "select", "extra": 1})
     n_sched = len(specs)
     # ---- 2./3. natural timing
-    for _ in range(60 if thorough else 16):
+    for _ in range(300 if thorough else 16):
         k = rng.range(2, 4)
         cs = REACH[:k] + rng.choice([[], [], ["X"], ["A'"], ["T"]])
         rng.shuffle(cs)
@@ -176,7 +181,7 @@ def run(ctx):
     ctx.coverage.update({
         "evaluations": len(specs), "distinct_nontrivial": ok_runs, "controlled_schedules": n_sched, "model_predictions_compared": len(pred),
         "disagreements_model_vs_impl": len(diffs),
-        "rule": "controlled: every order of the claims of 2 and 3 reachable candidates and the caller's receive (receive after at least one claim), the same with an unreachable port / a duplicate spelling / a turn:-prefixed address added, "
+        "rule": "controlled: every order of the claims of 2 and 3 (thorough: 4) reachable candidates and the caller's receive (receive after at least one claim), every order of 1-3 claims with the caller reaching its select only after all dials finished (repeated: select then has two ready cases), the same with an unreachable port / a duplicate spelling / a turn:-prefixed address added, "
                 "and the winner's path behind a relay that delays its packets towards the listener by 30-300 ms so that the listener completes the loser first (observer and real receiver selection). "
                 "natural timing: 2-4 reachable loopback addresses of one listener (+ optional unreachable/duplicate/turn candidate) in random order, observer mode and real selection with 0-3 extra connections and 0-3 strangers (silent, or authenticating with a wrong code) connected to the listener first. "
                 "oracle: one 'won', the caller's connection is the only one open at the listener after 400 ms, both peers authenticate on the same connection within 3 s, all extra connections kept, nothing else authenticates",
